@@ -3,5 +3,8 @@
 # One file per property under props.d/ (so properties can be added independently).
 import glob as _glob
 J = ["vf_json_test.go"]
+EV = ["vf_evgen_test.go"]
+AUTH = ["vf_rauth_test.go", "vf_c07_test.go", "vf_c08_test.go"]
+RES = ["vf_room_test.go", "vf_rres_test.go"]
 for _f in sorted(_glob.glob(os.path.join(VERIF, "props.d", "*.py"))):
     exec(open(_f).read())
